@@ -299,8 +299,7 @@ fn one_case(g: &mut Gen, prop: &str, id: usize, len: usize) -> Vec<String> {
                 c.push(format!("compute p={}", p));
             }
             if c.peers > 1 {
-                c.push("settle room=1 max=5".to_string());
-                c.push("settle room=2 max=5".to_string());
+                c.push("settle room=0 max=6".to_string());
             }
         }
         "C03" => {
@@ -335,8 +334,7 @@ fn one_case(g: &mut Gen, prop: &str, id: usize, len: usize) -> Vec<String> {
                     _ => c.push(format!("compute p={}", p)),
                 }
             }
-            c.push("settle room=1 max=6".to_string());
-            c.push("settle room=2 max=6".to_string());
+            c.push("settle room=0 max=8".to_string());
         }
         _ => {
             let seedrows = 2 + c.g.below(3);
@@ -379,7 +377,7 @@ fn one_case(g: &mut Gen, prop: &str, id: usize, len: usize) -> Vec<String> {
                     }
                 }
             }
-            c.push("settle room=1 max=6".to_string());
+            c.push("settle room=0 max=8".to_string());
         }
     }
     c.out
